@@ -913,6 +913,28 @@ pub fn run(rep: &mut Report) {
     {
         let t0 = Instant::now();
         let fam = if quick { open_family(3, &PHI4, 2) } else { let mut f = open_family(3, &PHI6, 3); f.extend(open_family(4, &[(1, 4), (3, 4), (1, 2)], 2)); f };
+        // cat stars, T-rich and gadget diagrams with one or two outputs on their first spiders
+        let mut fam = fam;
+        let mut closed: Vec<DiagSpec> = cat_family(true);
+        closed.extend(many_t_family());
+        closed.extend(gadget_group_family());
+        for (k, base) in closed.into_iter().enumerate() {
+            if quick && k % 3 != 0 {
+                continue;
+            }
+            for outs in [vec![0usize], vec![1], vec![1, 2], vec![0, 3]] {
+                if outs.iter().any(|&o| o >= base.verts.len()) {
+                    continue;
+                }
+                let mut d = base.clone();
+                for (j, &o) in outs.iter().enumerate() {
+                    let b = d.add(0, (0, 1));
+                    d.edges.push((o as u8, b, j == 1));
+                    d.outputs.push(b);
+                }
+                fam.push(d);
+            }
+        }
         let stats = sweep(&fam, |st, i, spec| {
             watch_begin(i as u64, 2);
             judge_saved(st, spec);
